@@ -324,12 +324,6 @@ sx_parse_token(const char *s, const size_t n, const size_t i)
 }
 
 static inline bool
-result_is_empty_listp(const struct sx_parse_result *res)
-{
-    return (res->status == SXS_SUCCESS && res->node->type == SXT_EMPTY_LIST);
-}
-
-static inline bool
 result_is_error(const struct sx_parse_result *res)
 {
     return (res->status != SXS_SUCCESS && res->status != SXS_FOUND_LIST);
@@ -346,8 +340,12 @@ sx_parse_list(const char *s, const size_t n, const size_t i)
         rv.status = SXS_UNEXPECTED_END;
         return rv;
     }
+    /* Only a closing parenthesis in this position ends the list. An element
+     * that is itself the empty list, as in (a () b), does not. */
+    const size_t j = skip_ws(s, n, i);
+    const bool closing = (j < n && s[j] == ')');
     struct sx_parse_result carres = sx_parse_(s, n, i);
-    if (result_is_empty_listp(&carres) || result_is_error(&carres)) {
+    if (closing || result_is_error(&carres)) {
         return carres;
     }
 
